@@ -6,7 +6,8 @@ ALSO = ["C01b"]   # C01 composed with C02 (what is stored in a record is what na
 RULE = ("random record descriptions (depth<=4, fan-out<=5, OCCURS 1-4, OCCURS DEPENDING ON with counters anywhere before the table, REDEFINES of "
         "elementary and group items at every child position, FILLER items, DISPLAY/COMP-3/binary items) printed as copybooks; a position-coded record "
         "with the chosen counter values; EVERY navigation path (names, first/second/last index of every table, one refused index) through EBCDIC().nav "
-        "and, for DISPLAY-only trees, TextUnpacker().nav; the emitted schema itself is compared with the model's. Separate streams hit the three known-bad "
+        "and, for DISPLAY-only trees, TextUnpacker().nav; the same trees with packed and binary items in their native-text form too (schema made by "
+        "JSONSchemaMaker(TextUnpacker), every width counted in characters), each right after its EBCDIC form; the emitted schema itself is compared with the model's. Separate streams hit the three known-bad "
         "shapes. Non-trivial = tree has OCCURS, REDEFINES or ODO (branch > 1); distinct = distinct case lines.")
 TRIVIAL_BRANCHES = [1]
 ASSUMPTIONS = ["widths of elementary items are given to the judge as the widths C04's specification lists (the generator avoids C04's known-bad configurations)",
@@ -20,6 +21,13 @@ def inputs(ctx):
     for i in range(n):
         text = (i % 3 == 2)
         yield "clean", dict(seed=rng.randrange(1 << 30), text=text, opts=dict(display_only=text))
+    # the same record description in its two physical forms, one after the other in this process: the EBCDIC form (packed and
+    # binary items as wide as their usage makes them) and the native-text form of a schema made by JSONSchemaMaker(TextUnpacker)
+    # (every item as wide as its picture has positions)
+    for i in range(60 if ctx.tier == "quick" else 900):
+        seed = rng.randrange(1 << 30)
+        yield "clean", dict(seed=seed, text=False, opts=dict(display_only=False))
+        yield "text-sized", dict(seed=seed, text=True, opts=dict(display_only=False, text_sized=True))
     m = 25 if ctx.tier == "quick" else 300
     for i in range(m):
         yield "redef-in-occurs", dict(seed=rng.randrange(1 << 30), text=False, opts=dict(redef_in_occurs=True, allow_odo=False))
@@ -48,7 +56,7 @@ def build_case(c):
 
 def observe(ctx, c):
     tree, env, counters, paths, record = build_case(c)
-    schema_obs, top_obs, lrecl_obs, path_obs, _ = observe_layout(tree, record, paths, c["text"])
+    schema_obs, top_obs, lrecl_obs, path_obs, _ = observe_layout(tree, record, paths, c["text"], c["opts"].get("text_sized", False))
     return [tree_sx(tree), record, [[k, v] for k, v in sorted(env.items())], [[cid, p] for cid, p, _, _ in counters],
             schema_obs, top_obs, lrecl_obs, path_obs]
 
